@@ -326,6 +326,33 @@ func (eapAkaPrime *EapAkaPrime) Unmarshal(rawData []byte) error {
 					return errors.Wrapf(err, "EAP-AKA' Unmarshal(): read %s attribute/padding failed", attr.attrType)
 				}
 			}
+		case AT_CHECKCODE:
+			if attr.length < 1 {
+				return errors.Errorf("EAP-AKA' Unmarshal(): %s attribute length must be at least 1", attr.attrType)
+			}
+
+			// In this case, reserved is no meaning
+			reserved := make([]byte, EapAkaAttrReservedLen)
+			n, err = io.ReadFull(bufReader, reserved)
+			if n != EapAkaAttrReservedLen {
+				return errors.Errorf("EAP-AKA' Unmarshal(): incomplete reserved bytes for %s", attr.attrType)
+			}
+			if err != nil {
+				return errors.Wrapf(err, "EAP-AKA' Unmarshal(): read %s attribute/reserved failed", attr.attrType)
+			}
+
+			valLen := 4*int(attr.length) - EapAkaAttrTypeLen - EapAkaAttrLengthLen - EapAkaAttrReservedLen
+			attr.value = make([]byte, valLen)
+			n, err = io.ReadFull(bufReader, attr.value)
+			if n != valLen {
+				return errors.Errorf("EAP-AKA' Unmarshal(): %s attribute value length mismatch, "+
+					"expect %d bytes but got %d bytes",
+					attr.attrType, valLen, n,
+				)
+			}
+			if err != nil && valLen > 0 {
+				return errors.Wrapf(err, "EAP-AKA' Unmarshal(): read %s attribute/value failed", attr.attrType)
+			}
 		case AT_KDF:
 			valLen := 4*attr.length - EapAkaAttrTypeLen - EapAkaAttrLengthLen
 			attr.value = make([]byte, valLen)
